@@ -116,6 +116,14 @@ Theorem C08_mu_natural_branch :
 Proof. exact mu_natural_branch. Qed.
 Print Assumptions C08_mu_natural_branch.
 
+(* "If every rule in the program is regular, the outputs of mu and nu are identical" (manual) *)
+Theorem C08_mu_regular_program :
+  forall (choose_fresh_global_variables : program -> list string)
+         (tau_star_rule : rule -> list string -> formula) (P : program) (th : theory),
+  natural P = NOk th -> mu choose_fresh_global_variables tau_star_rule P = NOk th.
+Proof. exact mu_on_regular_program. Qed.
+Print Assumptions C08_mu_regular_program.
+
 (* the executable reference evaluator used by the semantic cross-check lists exactly the values
    of the reference semantics *)
 Theorem C08_ref_vals_exact :
